@@ -290,12 +290,23 @@ def oracle(case, thorough=False):
 
     counter_ = {'n': 0}
 
-    def after_fault(db, label, raised, in_close=False):
+    def after_fault(db, label, raised, in_close=False, ticks=None):
         """Checks after a faulty run; returns False when the run must be abandoned."""
         conn = wn._db.pool.get(db.file)
         if conn is not None and conn.in_transaction:
             out.append(Disc('connection-left-in-transaction', label, False, True))
             conn.rollback()
+        if conn is not None and ticks is not None and raised:
+            # the failed call is over: its progress handler must not be called again, whatever
+            # the library's connection executes next (a long statement makes SQLite invoke a
+            # handler left installed; an exception from it would abort that later operation)
+            n0 = ticks['n']
+            conn.execute('WITH RECURSIVE c(x) AS (VALUES(1) UNION ALL SELECT x+1 FROM c '
+                         'WHERE x < 60000) SELECT count(*) FROM c').fetchall()
+            if ticks['n'] != n0:
+                out.append(Disc('progress-handler-called-after-operation-ended', label,
+                                'no further call', ticks['log'][n0:][:3]))
+                conn.set_progress_handler(None, 0)
         now = dumps.raw_dump(db.file)
         if not raised:
             return 'not-triggered'
@@ -373,7 +384,7 @@ def oracle(case, thorough=False):
                 # call) while it goes on: a retry inside `except`, pytest.raises, a REPL
                 held = e
             r = after_fault(db, f'progress k={k}/{K} ({c.get("fired_in")}) {exc.__name__}',
-                            raised, in_close=c.get('fired_in') == 'close')
+                            raised, in_close=c.get('fired_in') == 'close', ticks=c)
             del held
             note('progress' if exc is Injected else 'progress-baseexception', r)
             if len(out) > 6:
